@@ -218,7 +218,7 @@ func c04(tier string) []*explore.Scenario {
 		}
 		out = append(out, withConfig([]string{"via-rewriting-proxy", "demux+chain", "services+interceptors"}, c04EndToEnd(kind, false))...)
 	}
-	for _, way := range []string{"first-message", "sendheader", "with-trailer", "concurrent-sendheader"} {
+	for _, way := range []string{"first-message", "sendheader", "with-trailer", "concurrent-sendheader", "concurrent-setheader"} {
 		out = append(out, c04HeaderRace(way, 2))
 	}
 	// finer granularity (a scheduling point after every Unlock as well): SendHeader racing the first message, with and
@@ -480,6 +480,8 @@ func c04HeaderRace(way string, bound int) *explore.Scenario {
 			trl := metadata.MD{"t": {"end"}}
 			r := w.Rec("s", "Bidi")
 			sendHeaderOK := true
+			setOK := false
+			_ = setOK
 			w.Handlers["s"] = func(r *env.Rec, ss grpc.ServerStream) error {
 				switch way {
 				case "concurrent-sendheader":
@@ -491,6 +493,17 @@ func c04HeaderRace(way string, bound int) *explore.Scenario {
 					})
 					ss.SendMsg(env.S("x"))
 					<-done
+				case "concurrent-setheader":
+					// SendHeader from one goroutine while another still adds headers (each call is allowed; whether the
+					// later SetHeader is accepted depends on who comes first)
+					done := make(chan struct{})
+					vsched.GoNamed("handler-sendheader", func() {
+						sendHeaderOK = ss.SendHeader(hdr) == nil
+						close(done)
+					})
+					setOK = ss.SetHeader(metadata.MD{"late": {"v"}}) == nil
+					<-done
+					ss.SendMsg(env.S("x"))
 				case "sendheader":
 					ss.SendHeader(hdr)
 					ss.SendMsg(env.S("x"))
@@ -522,6 +535,14 @@ func c04HeaderRace(way string, bound int) *explore.Scenario {
 				vsched.Fail(fam+"|response-header", "Header() failed: %v", herr)
 			} else if !sendHeaderOK {
 				// the message won the race: SendHeader was refused, its metadata is legitimately not sent
+			} else if way == "concurrent-setheader" {
+				want := []metadata.MD{hdr}
+				if setOK {
+					want = append(want, metadata.MD{"late": {"v"}}) // an accepted SetHeader is part of the headers that leave
+				}
+				if msg := wantOf(want...).check(got, nil); msg != "" {
+					vsched.Fail(fam+"|response-header", "SetHeader (accepted=%v) concurrent with SendHeader: %s", setOK, msg)
+				}
 			} else if msg := wantOf(hdr).check(got, nil); msg != "" {
 				vsched.Fail(fam+"|response-header", "Header() called concurrently with the first response (%s): %s", way, msg)
 			}
